@@ -19,8 +19,12 @@ ROOT = os.path.dirname(os.path.dirname(os.path.abspath(__file__)))
 BASE = "/tmp/vmut"
 
 
-def sh(cmd, **kw):
-    return subprocess.run(cmd, shell=True, stdout=subprocess.PIPE, stderr=subprocess.STDOUT, text=True, **kw)
+def sh(cmd, timeout=900, **kw):
+    try:
+        return subprocess.run(cmd, shell=True, stdout=subprocess.PIPE, stderr=subprocess.STDOUT, text=True, timeout=timeout, **kw)
+    except subprocess.TimeoutExpired as exc:
+        subprocess.run("pkill -f 'run.py C'; pkill -f multiprocessing.spawn", shell=True)
+        return subprocess.CompletedProcess(cmd, 124, stdout="TIMEOUT after %ss\n%s" % (timeout, (exc.stdout or b"")[-500:]))
 
 
 def main():
